@@ -234,14 +234,16 @@ Rw7 == { ExQ(ResInList, TRUE), ExQ(ResInPlain, TRUE) }
 RwGroups == { Rw1(c) : c \in {CmpE("=", T1A, T2A), AndE(CmpE("=", T1A, T2A), CmpE("=", T1B, L(0))), CmpE("<", T1A, T2A)} } \cup {Rw2, Rw3, Rw4, Rw5, Rw6, Rw7}
 F8 == UNION RwGroups \cup {NotInQ, NotExQ}
 
-\* (LIMIT / OFFSET inside a view, CTE or derived table is NOT in this model: EvalQ gives nested blocks their full row bag and
-\* slices are judged only on the outermost query by AcceptRes - a top-N definition would need a deterministic nested sort)
 \* C32: views and CTEs: the same defining query used as a view (V1, created in Setup2), a CTE and a derived table
 ViewDefs == << SelX(From1, <<It(A1, "A"), It(ArE("+", A1, B1), "S")>>, CmpE(">=", A1, L(0))),
                [SelX(From1, <<It(A1, "A"), It(CountStar, "N")>>, NoExpr) EXCEPT !.group = <<A1>>],
-               SelX(JoinF("inner", From1, From2, CmpE("=", T1A, T2A)), <<It(T1B, "B"), It(T2C, "C")>>, NoExpr) >>
-ViewNames9 == << "V1", "V2", "V3" >>
-ViewCols == << <<>>, <<"K", "CNT">>, <<>> >>
+               SelX(JoinF("inner", From1, From2, CmpE("=", T1A, T2A)), <<It(T1B, "B"), It(T2C, "C")>>, NoExpr),
+               \* top-N definitions: whatever the outer query filters, it filters AFTER the definition's own LIMIT / OFFSET
+               \* (SqlSem!BlockRows); the ORDER BY names every column, so the slice is a definite bag
+               [SelX(From1, <<It(A1, "A"), It(B1, "B")>>, NoExpr) EXCEPT !.order = <<OrdE(A1, "desc"), OrdE(B1, "desc")>>, !.limit = 1],
+               [SelX(From1, <<It(A1, "A"), It(B1, "B")>>, NoExpr) EXCEPT !.order = <<OrdE(B1, "asc"), OrdE(A1, "asc")>>, !.limit = 1, !.offset = 1] >>
+ViewNames9 == << "V1", "V2", "V3", "V4", "V5" >>
+ViewCols == << <<>>, <<"K", "CNT">>, <<>>, <<>>, <<>> >>
 OuterOn(f, c1, c2) == { [BaseSel(f) EXCEPT !.where = NoExpr], SelX(f, <<It(Col(c1), c1)>>, IsNullE(Col(c2), TRUE)),
                         [SelX(f, <<It(Col(c1), c1), It(CountStar, "N")>>, NoExpr) EXCEPT !.group = <<Col(c1)>>] }
 OutCols(i) == IF ViewCols[i] # <<>> THEN ViewCols[i] ELSE [j \in 1..Len(ViewDefs[i].sel) |-> ViewDefs[i].sel[j].as]
@@ -249,8 +251,8 @@ F9View(i) == OuterOn(TableRef(ViewNames9[i]), OutCols(i)[1], OutCols(i)[2])
 F9Cte(i)  == { [q EXCEPT !.with = <<[n |-> "W", q |-> ViewDefs[i], cols |-> ViewCols[i]]>>] : q \in OuterOn(TableRef("W"), OutCols(i)[1], OutCols(i)[2]) }
 RenamedDef(i) == IF ViewCols[i] = <<>> THEN ViewDefs[i] ELSE [ViewDefs[i] EXCEPT !.sel = [j \in 1..Len(@) |-> It(@[j].e, ViewCols[i][j])]]
 F9Der(i)  == OuterOn(Derived(RenamedDef(i), "W"), OutCols(i)[1], OutCols(i)[2])
-F9 == UNION { F9View(i) \cup F9Cte(i) \cup F9Der(i) : i \in 1..3 }
-Setup9 == [i \in 1..3 |-> [a |-> "cv", n |-> ViewNames9[i], q |-> ViewDefs[i], cols |-> ViewCols[i]]]
+F9 == UNION { F9View(i) \cup F9Cte(i) \cup F9Der(i) : i \in 1..5 }
+Setup9 == [i \in 1..5 |-> [a |-> "cv", n |-> ViewNames9[i], q |-> ViewDefs[i], cols |-> ViewCols[i]]]
 
 Queries == CASE Family = "F1" -> F1 [] Family = "F1L" -> F1L [] Family = "F4S" -> F4S [] Family = "F5S" -> F5S [] Family = "F1C" -> F1C [] Family = "F2" -> F2 [] Family = "F3" -> F3 [] Family = "F4" -> F4 [] Family = "F4M" -> F4M
              [] Family = "F5" -> F5 [] Family = "F6" -> F6 [] Family = "F7" -> F7 [] Family = "F8" -> F8 [] Family = "F9" -> F9
